@@ -40,3 +40,47 @@ Example C18_example :
   fst (erun emu_init [ETransmit data; ERecv meas; ETransmit data; ETransmit [250; 255; 54; 1; 0; 0]%N; ERecv cfg; ETransmit data; ESendMode; ETransmit data; ELastId])
   = [OTx 1 []; OWrote [new_message 54%N []]; OTx 0 [data]; OTx 2 []; OWrote [new_message 49%N []]; OTx 1 []; ONone; OTx 0 [data]; OId 54].
 Proof. vm_compute. reflexivity. Qed.
+
+(* The model IS the code: every method of xsensemulator.Emulator as REGENERATED statement by statement from emulator.go
+   on this run (Gen/EmuFns.v; state = configuration slice with its capacity, mode register, frames written to the
+   port; the mutex operations do not touch that state) takes the same step as estep, for every state, every token the
+   scanner delivers and every frame handed to Transmit: one iteration of the receive loop either goes round again having
+   written exactly the model's acknowledge after the model's state change, or returns an error with the state untouched
+   and the loop dead; Transmit's three outcomes are the model's; a cancelled context, the end of the input and a failing
+   port write end the loop / the call with that cause and write nothing. *)
+Require Import Base.GoBytes Gen.EmuFns Tie.EmuAgree.
+Theorem C18_receive_step_model_is_the_source : forall st f, wf_bytes f -> conf_ok st ->
+  exists r, g_Emulator_Receive_step false true f None None st = Val r /\
+    match r with
+    | inl st' => estep (absE st true) (ERecv f) = (OWrote (skipn (length (snd st)) (snd st')), absE st' true) /\ conf_ok st'
+    | inr (e, st') => e <> None /\ estep (absE st true) (ERecv f) = (OWrote [], absE st' false) /\ st' = st
+    end.
+Proof. exact emu_receive_step_agrees. Qed.
+Print Assumptions C18_receive_step_model_is_the_source.
+
+Theorem C18_transmit_model_is_the_source : forall st a m, wf_bytes m ->
+  exists e st', g_Emulator_Transmit None m st = Val (e, st') /\
+    estep (absE st a) (ETransmit m) = (OTx (tx_code e) (skipn (length (snd st)) (snd st')), absE st' a).
+Proof. exact emu_transmit_agrees. Qed.
+Print Assumptions C18_transmit_model_is_the_source.
+
+Theorem C18_other_methods_model_is_the_source : forall st a,
+  (exists st', g_Emulator_SetSendMode st = Val st' /\ estep (absE st a) ESendMode = (ONone, absE st' a)) /\
+  (forall cfg, exists st', g_Emulator_SetOutputConguration cfg st = Val st' /\
+     estep (absE st a) (ESetConf (firstn (Z.to_nat (snd cfg)) (fst cfg))) = (ONone, absE st' a)) /\
+  (exists z, g_Emulator_LastMessageIdentifier st = Val (z, st) /\ estep (absE st a) ELastId = (OId z, absE st a)).
+Proof.
+  intros st a. split; [exact (emu_set_send_mode_agrees st a)|]. split; [exact (emu_set_conf_agrees st a)|exact (emu_last_id_agrees st a)].
+Qed.
+Print Assumptions C18_other_methods_model_is_the_source.
+
+Theorem C18_loop_ends_without_writing : forall st f sc e pw,
+  g_Emulator_Receive_step true sc f e pw st = Val (inr (Some (-2), st)) /\
+  g_Emulator_Receive_step false false f e pw st = Val (inr (match e with Some c => Some c | None => Some (-1) end, st)).
+Proof. exact emu_receive_step_stops. Qed.
+Print Assumptions C18_loop_ends_without_writing.
+
+Theorem C18_failing_write_writes_nothing : forall o port m c, validate m = VOk ->
+  g_Emulator_Transmit (Some c) m (o, 54, port) = Val (Some c, (o, 54, port)).
+Proof. exact emu_transmit_write_fails. Qed.
+Print Assumptions C18_failing_write_writes_nothing.
